@@ -148,7 +148,9 @@ class ClientHarness:
         self.url = "gemini://%s/some/path?secret-query=1" % self.HOST
         self.content = b"UPLOAD-CONTENT-" + b"z" * 50
         if ep == "get":
-            coro = self.client._get_single(self.url)
+            # one request, no redirect following: the private single-request coroutine if it exists, else the public call
+            single = getattr(self.client, "_get_single", None)
+            coro = single(self.url) if single is not None else self.client.get(self.url, follow_redirects=False)
         else:
             coro = self.client.upload("gemini://%s/up/file.gmi" % self.HOST, self.content, token="TOKEN-SECRET")
         self.task = self.loop.create_task(coro)
